@@ -461,6 +461,13 @@ fn passes_through(enc: &'static Encoding, b: u8) -> bool {
 }
 
 fn peek_latin1(d: &Decoder, spec: &DecSpec, calls: &[CallRec], consumed: usize, pending: &[u8]) -> Vec<Viol> {
+    match crate::sink::guard(|| peek_latin1_inner(d, spec, calls, consumed, pending)) {
+        Ok(v) => v,
+        Err(_) => vec![viol("C06", "panic-in-contract", format!("a decoder forked from the recorded history panicked while being probed with ample buffers: {}", crate::sink::take_panic()))],
+    }
+}
+
+fn peek_latin1_inner(d: &Decoder, spec: &DecSpec, calls: &[CallRec], consumed: usize, pending: &[u8]) -> Vec<Viol> {
     let mut v = Vec::new();
     let res = match crate::sink::guard((|| d.latin1_byte_compatible_up_to(pending))) {
         Ok(r) => r,
@@ -715,7 +722,13 @@ fn exec_dec(prop: &str, spec: &DecSpec, source: &mut dyn OpSource) -> RunOut {
         if prop == "C10" {
             let (eff, bom_len) = bom_model(spec.enc, spec.bom, &spec.stream);
             // for_bom recognises exactly the three BOMs
-            let fb = Encoding::for_bom(&spec.stream);
+            let fb = match crate::sink::guard(|| Encoding::for_bom(&spec.stream)) {
+                Ok(x) => x,
+                Err(_) => {
+                    viols.push(viol("C10", "for-bom", format!("for_bom panicked: {}", crate::sink::take_panic())));
+                    None
+                }
+            };
             let (seff, slen) = bom_model(UTF_8, Bom::Sniff, &spec.stream);
             let expect_fb = if slen > 0 { Some((seff, slen)) } else { None };
             if fb != expect_fb {
